@@ -68,6 +68,13 @@ pub fn lists_and_ss() -> Vec<(Unifiable, SS)> {
     // variable bound THROUGH another variable to a list ($X = $Y after $Y = [a, b]) and to an atom
     v.push((var(7, "$P"), mk(&[(7, var(8, "$Q")), (8, mk_list(&[atom("a"), atom("b")], None))])));
     v.push((var(7, "$P"), mk(&[(7, var(8, "$Q")), (8, atom("z"))])));
+    // seeded random lists (tails and elements bound through cycle-free bindings); fixed seed: the pool is part of several enumerators
+    let mut rng = Rng(0x5DEECE66D);
+    for _ in 0..60 {
+        let ss = rand_ss(&mut rng, 6, true);
+        let l = if rng.below(4) == 0 { let k = 1 + rng.below(6); var(k, &format!("$V{}", k)) } else { rand_list(&mut rng, 2, 6, false, true) };
+        v.push((l, ss));
+    }
     v
 }
 
@@ -207,6 +214,14 @@ pub fn enum_join(_s: u64) -> Vec<String> {
     v.push((vec![atom("Would you like"), var(2, "$L")], mk(&[(1, atom("?")), (2, mk_list(&[atom("tea"), var(1, "$Q")], None))])));
     v.push((vec![mk_list(&[atom("Hello")], Some(var(2, "$T")))], mk(&[(1, atom("!")), (2, mk_list(&[atom("there"), var(1, "$E")], None))])));
     v.push((vec![atom("end"), var(1, "$P")], mk(&[(1, atom("."))])));
+    let mut rng = Rng(_s.wrapping_mul(2654435761) | 1);
+    for _ in 0..80 {
+        let ss = rand_ss(&mut rng, 5, true);
+        let n = 1 + rng.below(4);
+        let mut args = vec![];
+        for _ in 0..n { args.push(if rng.below(3) == 0 { rand_list(&mut rng, 1, 5, false, true) } else { rand_leaf(&mut rng, 5, false) }); }
+        v.push((args, ss));
+    }
     v.iter().map(|(ts, ss)| format!("ss={};in={}", ser_ss(ss), ser_list(ts))).collect()
 }
 pub fn check_join(case: &str) -> Result<(), String> {
